@@ -21,22 +21,16 @@ Proof. exact inverse. Qed.
 Print Assumptions C07_inverse.
 
 (* attenuation is a pure dB offset: +20 dB <=> x10 volts, and in general +d dB <=> x dbi(d) *)
-Theorem C07_attenuation_offset : forall s L a, cal_get_sf s L (a + 20) = 10 * cal_get_sf s L a.
-Proof. exact attenuation_20. Qed.
+Theorem C07_attenuation_offset : forall s L a d,
+  cal_get_sf s L (a + 20) = 10 * cal_get_sf s L a /\ cal_get_sf s L (a + d) = util_dbi d 1 * cal_get_sf s L a.
+Proof. exact attenuation_offset_both. Qed.
 Print Assumptions C07_attenuation_offset.
 
-Theorem C07_attenuation_offset_general : forall s L a d, cal_get_sf s L (a + d) = util_dbi d 1 * cal_get_sf s L a.
-Proof. exact attenuation_offset. Qed.
-Print Assumptions C07_attenuation_offset_general.
-
 (* so is the level itself, and x10 volts reads as +20 dB *)
-Theorem C07_level_offset : forall s L a, cal_get_sf s (L + 20) a = 10 * cal_get_sf s L a.
-Proof. exact level_20. Qed.
+Theorem C07_level_offset : forall s L a v, 0 < v ->
+  cal_get_sf s (L + 20) a = 10 * cal_get_sf s L a /\ cal_get_db s (10 * v) = cal_get_db s v + 20.
+Proof. exact level_offset_both. Qed.
 Print Assumptions C07_level_offset.
-
-Theorem C07_volts_times_10 : forall s v, 0 < v -> cal_get_db s (10 * v) = cal_get_db s v + 20.
-Proof. exact db_volts_20. Qed.
-Print Assumptions C07_volts_times_10.
 
 (* get_gain is the scale factor in dB *)
 Theorem C07_gain_is_db : forall s L a, cal_get_gain s L a = L - s + a.
@@ -57,57 +51,40 @@ Theorem C07_fixed_gain_offset : forall S g L a v,
 Proof. exact fixed_gain_offset. Qed.
 Print Assumptions C07_fixed_gain_offset.
 
-(* get_mean_sf (mean over the sensitivities of the range; FlatCalibration's override): attenuation is an offset *)
+(* get_mean_sf (mean of get_sf over the sensitivities of the range; FlatCalibration overrides it by one get_sf):
+   attenuation is an offset, and the override is the mean over any non-empty range of equal sensitivities *)
 Theorem C07_mean_sf_attenuation_offset : forall ss s L a,
-  mean_sf ss L (a + 20) = 10 * mean_sf ss L a /\ flat_get_mean_sf s L (a + 20) = 10 * flat_get_mean_sf s L a.
-Proof. exact mean_sf_attenuation_offset. Qed.
+  mean_sf ss L (a + 20) = 10 * mean_sf ss L a /\ flat_get_mean_sf s L (a + 20) = 10 * flat_get_mean_sf s L a /\
+  (ss <> nil -> (forall x, In x ss -> x = s) -> mean_sf ss L a = flat_get_mean_sf s L a).
+Proof. exact mean_sf_laws. Qed.
 Print Assumptions C07_mean_sf_attenuation_offset.
 
-Theorem C07_flat_mean_sf_is_mean : forall s ss L a, ss <> nil -> (forall x, In x ss -> x = s) ->
-  mean_sf ss L a = flat_get_mean_sf s L a.
-Proof. exact flat_mean_sf. Qed.
-Print Assumptions C07_flat_mean_sf_is_mean.
-
 (* ---------------------------------------------------------------- constructors describe the same device *)
-Theorem C07_from_db_consistent : forall level v, 0 < v ->
-  cal_get_db (flat_from_db level v) v = level /\ cal_get_sf (flat_from_db level v) level 0 = v /\
-  cal_get_db (freq_from_db level v) v = level /\ cal_get_sf (freq_from_db level v) level 0 = v.
-Proof. exact from_db_consistent. Qed.
-Print Assumptions C07_from_db_consistent.
+(* "v volts were measured as `level` dB (SPL)": v reads back as that level and get_sf(level) asks for v *)
+Theorem C07_from_spl_from_db_consistent : forall level v, 0 < v ->
+  (cal_get_db (flat_from_spl level v) v = level /\ cal_get_sf (flat_from_spl level v) level 0 = v /\
+   cal_get_db (freq_from_spl level v) v = level /\ cal_get_sf (freq_from_spl level v) level 0 = v) /\
+  (cal_get_db (flat_from_db level v) v = level /\ cal_get_sf (flat_from_db level v) level 0 = v /\
+   cal_get_db (freq_from_db level v) v = level /\ cal_get_sf (freq_from_db level v) level 0 = v).
+Proof. exact from_spl_from_db_consistent. Qed.
+Print Assumptions C07_from_spl_from_db_consistent.
 
-Theorem C07_from_spl_consistent : forall spl v, 0 < v ->
-  cal_get_db (flat_from_spl spl v) v = spl /\ cal_get_sf (flat_from_spl spl v) spl 0 = v /\
-  cal_get_db (freq_from_spl spl v) v = spl /\ cal_get_sf (freq_from_spl spl v) spl 0 = v.
-Proof. exact from_spl_consistent. Qed.
-Print Assumptions C07_from_spl_consistent.
-
-(* m Pascals measured for v volts: v volts read as the SPL of m Pascals (util.patodb) *)
-Theorem C07_from_pascals_consistent : forall m v, 0 < m -> 0 < v ->
-  cal_get_db (flat_from_pascals m v) v = util_patodb m /\ cal_get_db (freq_from_pascals m v) v = util_patodb m.
-Proof. exact from_pascals_consistent. Qed.
+(* m Pascals measured for v volts: v volts read as the SPL of m Pascals (util.patodb); all constructors agree *)
+Theorem C07_from_pascals_consistent : forall m spl v, 0 < m -> 0 < v ->
+  (cal_get_db (flat_from_pascals m v) v = util_patodb m /\ cal_get_db (freq_from_pascals m v) v = util_patodb m) /\
+  (flat_from_pascals m v = flat_from_spl (util_patodb m) v /\
+   freq_from_pascals m v = freq_from_spl (util_patodb m) v /\
+   flat_from_spl spl v = flat_from_db spl v /\ freq_from_spl spl v = freq_from_db spl v /\
+   flat_from_db spl v = freq_from_db spl v).
+Proof. exact from_pascals_consistent_agree. Qed.
 Print Assumptions C07_from_pascals_consistent.
 
-Theorem C07_constructors_agree : forall m spl v, 0 < m -> 0 < v ->
-  flat_from_pascals m v = flat_from_spl (util_patodb m) v /\
-  freq_from_pascals m v = freq_from_spl (util_patodb m) v /\
-  flat_from_spl spl v = flat_from_db spl v /\ freq_from_spl spl v = freq_from_db spl v /\
-  flat_from_db spl v = freq_from_db spl v.
-Proof. exact constructors_agree. Qed.
-Print Assumptions C07_constructors_agree.
-
-(* a microphone of m mV/Pa turns p Pascals into m * 1e-3 * p volts, read back as the SPL of p Pascals *)
-Theorem C07_from_mv_pa_consistent : forall m p, 0 < m -> 0 < p ->
+(* mV/Pa round trips both ways; a microphone of m mV/Pa turns p Pascals into m * 1e-3 * p volts, read back as the SPL of p *)
+Theorem C07_mv_pa_roundtrip : forall m p s, 0 < m -> 0 < p ->
+  flat_to_mv_pa (flat_from_mv_pa m) = m /\ flat_from_mv_pa (flat_to_mv_pa s) = s /\
   cal_get_db (flat_from_mv_pa m) (m * (1 / 1000) * p) = util_patodb p.
-Proof. exact from_mv_pa_consistent. Qed.
-Print Assumptions C07_from_mv_pa_consistent.
-
-Theorem C07_mv_pa_roundtrip : forall m, 0 < m -> flat_to_mv_pa (flat_from_mv_pa m) = m.
-Proof. exact mv_pa_roundtrip. Qed.
+Proof. exact mv_pa_laws. Qed.
 Print Assumptions C07_mv_pa_roundtrip.
-
-Theorem C07_mv_pa_roundtrip' : forall s, flat_from_mv_pa (flat_to_mv_pa s) = s.
-Proof. exact mv_pa_roundtrip'. Qed.
-Print Assumptions C07_mv_pa_roundtrip'.
 
 Theorem C07_unity_and_attenuation : forall v L, 0 < v ->
   (cal_get_sf flat_unity L 0 = util_dbi L 1 /\ cal_get_db flat_unity v = util_db v 1) /\
@@ -122,16 +99,13 @@ Theorem C07_db_dbi_inverse : forall x r, 0 < r ->
 Proof. exact db_dbi_inverse. Qed.
 Print Assumptions C07_db_dbi_inverse.
 
-(* the code before the two repairs of branch fix-C07 (formulas copied from the unrepaired source) broke the property *)
-Theorem C07_from_pascals_unrepaired_refuted : exists m v, 0 < m /\ 0 < v /\
-  cal_get_db (flat_from_pascals_unrepaired m v) v <> util_patodb m.
-Proof. exact from_pascals_unrepaired_refuted. Qed.
-Print Assumptions C07_from_pascals_unrepaired_refuted.
-
-Theorem C07_mean_sf_unrepaired_refuted : exists s L a,
-  flat_get_mean_sf_unrepaired s L (a + 20) <> 10 * flat_get_mean_sf_unrepaired s L a.
-Proof. exact mean_sf_unrepaired_refuted. Qed.
-Print Assumptions C07_mean_sf_unrepaired_refuted.
+(* the code before the two repairs of branch fix-C07 (formulas copied from the unrepaired source) broke the property:
+   from_pascals did not read v volts as m Pascals, FlatCalibration.get_mean_sf ignored its attenuation *)
+Theorem C07_unrepaired_refuted :
+  (exists m v, 0 < m /\ 0 < v /\ cal_get_db (flat_from_pascals_unrepaired m v) v <> util_patodb m) /\
+  (exists s L a, flat_get_mean_sf_unrepaired s L (a + 20) <> 10 * flat_get_mean_sf_unrepaired s L a).
+Proof. exact unrepaired_refuted. Qed.
+Print Assumptions C07_unrepaired_refuted.
 
 Example C07_ex_positive : 0 < 1 / 1000 /\ 0 < 2. Proof. split; lra. Qed.
 
